@@ -558,7 +558,8 @@ def run_check(tier, seed):
                     failed_thms.add(th)
             log('[S3] lake build FAILED:', sorted(failed_thms)[:10], out[-600:])
         discharged, bad = axiom_audit('PnVerif.Props.C16', obl, 'PnVerif.Props.C16') if ok else ([], [])
-        forb = grep_forbidden([os.path.join(LEAN, f) for f in ('PnVerif/Model/Fill.lean', 'PnVerif/Props/C16.lean', 'Driver/C16.lean')])
+        forb = grep_forbidden([os.path.join(LEAN, f) for f in ('PnVerif/Model/Fill.lean', 'PnVerif/Props/C16.lean', 'Driver/C16.lean',
+                                                            'PnVerif/Model/Redef.lean', 'PnVerif/Lemmas/Redef.lean')])
         V.cov['obligations'] = len(obl)
         V.cov['discharged'] = len(discharged)
         V.cov['checker_cmd'] = 'cd lean && lake build PnVerif.Props.C16 c16drv && lake env lean <#print axioms of every name in PnVerif.Props.C16.obligations>'
@@ -692,6 +693,9 @@ def run_check(tier, seed):
                 for kd in sc.kinds:
                     bump('api:' + kd)
                 bump('api:nprocs=%d' % np_)
+                if outs == 'skipped':
+                    bump('api:skipped-after-crashes')
+                    continue
                 if outs is None:
                     prop_fail.append(('api-crash-or-hang', 'harness crashed or hung on a valid fill scenario (%d ranks)' % np_,
                                       dict(nprocs=np_, script=sc.ops)))
@@ -778,19 +782,23 @@ def run_scenarios(aexe, wd, np_, scen, batch):
         script = os.path.join(wd, 'api_%d.txt' % np_)
         open(script, 'w').write('\n'.join(lines) + '\n')
         outp = os.path.join(wd, 'api_%d.out' % np_)
-        rc, so, se = mpirun(np_, [aexe, script, os.path.join(wd, 'api_%d.nc' % np_), outp], timeout=200)
+        rc, so, se = mpirun(np_, [aexe, script, os.path.join(wd, 'api_%d.nc' % np_), outp], timeout=120)
         if rc != 0:
             return None
         allres = [H.parse_out('%s.%d' % (outp, r)) for r in range(np_)]
         return [[{i + 1: allres[r].get(offs[k] + i + 1) for i in range(len(sc.ops))} for r in range(np_)]
                 for k, sc in enumerate(scen)]
-    res = []
+    res, nbad = [], 0
     for k, sc in enumerate(scen):
+        if nbad >= 3:
+            res.append('skipped')        # enough crashing/hanging scenarios to report; keep the run time bounded
+            continue
         script = os.path.join(wd, 'api_%d_%d.txt' % (np_, k))
         open(script, 'w').write(sc.text())
         outp = os.path.join(wd, 'api_%d_%d.out' % (np_, k))
-        rc, so, se = mpirun(np_, [aexe, script, os.path.join(wd, 'api_%d_%d.nc' % (np_, k)), outp], timeout=60)
+        rc, so, se = mpirun(np_, [aexe, script, os.path.join(wd, 'api_%d_%d.nc' % (np_, k)), outp], timeout=30)
         res.append([H.parse_out('%s.%d' % (outp, r)) for r in range(np_)] if rc == 0 else None)
+        nbad += (rc != 0)
     return res
 
 
